@@ -396,7 +396,7 @@ func c10ClauseMapping(c *Ctx, rule string) {
 				return true
 			}
 			for _, st := range ifs.Body.List {
-				if as, ok := st.(*ast.AssignStmt); ok && len(as.Lhs) == 1 && strings.HasSuffix(exprKey(as.Lhs[0]), ".OrderingSpecification") && exprKey(as.Rhs[0]) == "p.Prev()" {
+				if as, ok := st.(*ast.AssignStmt); ok && len(as.Lhs) == 1 && strings.HasSuffix(exprKey(as.Lhs[0]), ".OrderingSpecification") && exprKey(as.Rhs[0]) == recvName(f)+".Prev()" {
 					storesMatched = true
 				}
 			}
@@ -431,7 +431,7 @@ func c10ClauseMapping(c *Ctx, rule string) {
 				sort.Strings(stored)
 				want := []string{field, field + "Active"}
 				sort.Strings(want)
-				okArm := strings.Join(stored, ",") == strings.Join(want, ",") && strings.Contains(cond, "!lc."+field+"Active")
+				okArm := strings.Join(stored, ",") == strings.Join(want, ",") && strings.Contains(cond, "."+field+"Active") && strings.Contains(cond, "!")
 				c.Check(okArm, rule, key, cc.Pos(), kw+" stores "+strings.Join(want, "+"), "the "+kw+" arm stores ["+strings.Join(stored, ",")+"] instead of "+strings.Join(want, "+")+" (or is not guarded by its own Active flag)")
 			}
 			return true
